@@ -54,6 +54,10 @@ RULE = (
     "BVP solver observed through the hook), robust-exact-core (density == shipped core model, split2 on/off, atoms and "
     "molecules), robust-smooth (robust against plain solver and analytic truth, split2 on/off). Discrete choices are drawn "
     "in cases() from (tier, seed); exponents, coefficients, displacements, geometries from the per-case generator. "
+    "Every run contains each of the 9 radial kinds, four centred solves and one linearity case on a short radial range "
+    "(remove_large_pts=10, where the l=0 boundary value matters), a dipole and a quadrupole component, one mixed H-X molecule "
+    "at degree 22 and molecular robust cases; thorough adds 8 anisotropic solves with the DEFAULT options (family "
+    "bvp-aniso-default-options, not required, documents non-convergence). "
     "A case is non-trivial when at least one solve converged and was compared; non-convergence reported by the library "
     "(ValueError 'didn't converge') discards the case."
 )
@@ -72,6 +76,8 @@ ASSUMPTIONS = [
     "IVP envelope (only stable one found): LinearFiniteRTransform(1e-3,1e3) of a >=3000-point trapezoid, r_interval=(1e3,1e-3), "
     "exponents 0.05..0.5, DOP853/RK45, evaluation radii 0.3..100; LSODA (error 9e-3) and Becke radial grids are outside",
     "solve_ode_bvp draws its initial guess from numpy's global RNG; the harness seeds it per case",
+    "robust solver on molecules: smooth = exponents 0.3..1.6 (atoms: 0.3..3), charges 0.5..4 per centre; scale of the robust clauses = "
+    "sum|c| + total core charge (the numerical part solves rho - core)",
     "shipped core parameters contain s functions only (checked at start-up), so the C17 p-type formula defect cannot enter",
 ]
 LEVEL_TEXT = "Exploration: held on every executed density/grid/option combination inside the stated envelope; hundreds of solves, not a proof."
@@ -682,7 +688,9 @@ def _run_robust(ctx, family, params):
 
     # smooth density: Gaussians on the nuclei, charge 0.5..4 each
     cs = rng.uniform(0.5, 4.0, len(atn))
-    al = _loguniform(rng, 0.3, 3.0, len(atn))
+    # molecules: "smooth" = exponents <= 1.6 (probe: with both exponents > 1.7 the split2 NNLS fit leaves a residual the radial
+    # grid resolves only to 1-3e-3 x scale, independent of the angular degree - inside the threshold but without margin)
+    al = _loguniform(rng, 0.3, 1.6 if mol else 3.0, len(atn))
     rho = ref.gauss_density(grid.points, cs, al, coords)
     truth = ref.gauss_potential(P, cs, al, coords)
     scale = float(np.sum(np.abs(cs))) + qcore
